@@ -22,6 +22,8 @@ import (
 	"net"
 	"strings"
 	"sync"
+
+	"github.com/ClickHouse/clickhouse-go/v2"
 )
 
 const ctrlSrvRevision = 54440
@@ -229,6 +231,10 @@ func ctrlErrCode(err error) int32 {
 	if errors.As(err, &me) {
 		return int32(me.code)
 	}
+	var ce *clickhouse.Exception
+	if errors.As(err, &ce) {
+		return ce.Code
+	}
 	return 210 // NETWORK_ERROR stands for an injected fault
 }
 
@@ -299,7 +305,9 @@ func (s *CtrlServer) serve(c net.Conn, backend CtrlBackend) error {
 			if err != nil {
 				return err
 			}
-			s.answer(x, sess, sql)
+			if drop := s.answer(x, sess, sql); drop {
+				return nil // transport-level fault: the connection dies without an answer
+			}
 			if err := x.w.Flush(); err != nil {
 				return err
 			}
@@ -404,19 +412,33 @@ func ctrlIsSelect(sql string) bool {
 	return strings.HasPrefix(t, "SELECT") || strings.HasPrefix(t, "SHOW") || strings.HasPrefix(t, "WITH") || strings.HasPrefix(t, "DESCRIBE") || strings.HasPrefix(t, "EXISTS")
 }
 
-func (s *CtrlServer) answer(x *ctrlWire, sess CtrlSession, sql string) {
+func ctrlErrMsg(err error) string {
+	var ce *clickhouse.Exception
+	if errors.As(err, &ce) {
+		return ce.Message
+	}
+	return err.Error()
+}
+
+func (s *CtrlServer) answer(x *ctrlWire, sess CtrlSession, sql string) (drop bool) {
 	if !ctrlIsSelect(sql) {
 		if err := sess.Exec(sql); err != nil {
-			x.putException(ctrlErrCode(err), err.Error())
-			return
+			if CtrlTransportError(err) {
+				return true
+			}
+			x.putException(ctrlErrCode(err), ctrlErrMsg(err))
+			return false
 		}
 		x.w.WriteByte(5) // end of stream
-		return
+		return false
 	}
 	cols, rows, err := sess.Query(sql)
 	if err != nil {
-		x.putException(ctrlErrCode(err), err.Error())
-		return
+		if CtrlTransportError(err) {
+			return true
+		}
+		x.putException(ctrlErrCode(err), ctrlErrMsg(err))
+		return false
 	}
 	kinds := make([]string, len(cols))
 	for i := range cols {
@@ -436,6 +458,7 @@ func (s *CtrlServer) answer(x *ctrlWire, sess CtrlSession, sql string) {
 		x.putBlock(cols, kinds, rows)
 	}
 	x.w.WriteByte(5)
+	return false
 }
 
 // ---- a farm of modelled databases behind several nodes -------------------------------------------
